@@ -84,6 +84,10 @@ type Chain[I, O any] struct {
 // ErrChainCompiled is returned when attempting to modify a chain after it has been compiled
 var ErrChainCompiled = errors.New("chain has been compiled, cannot be modified")
 
+// errChainEnded is reported when something is appended after a Compile attempt has connected the chain to END: the
+// new stage could not be reached any more.
+var errChainEnded = errors.New("chain has been connected to END by a Compile attempt, cannot be extended")
+
 // implements AnyGraph.
 func (c *Chain[I, O]) compile(ctx context.Context, option *graphCompileOptions) (*composableRunnable, error) {
 	if err := c.addEndIfNeeded(); err != nil {
@@ -308,6 +312,11 @@ func (c *Chain[I, O]) AppendBranch(b *ChainBranch) *Chain[I, O] { // nolint: byt
 		return c
 	}
 
+	if c.hasEnd {
+		c.reportError(errChainEnded)
+		return c
+	}
+
 	if b.err != nil {
 		c.reportError(fmt.Errorf("append branch error: %w", b.err))
 		return c
@@ -425,6 +434,11 @@ func (c *Chain[I, O]) AppendParallel(p *Parallel) *Chain[I, O] {
 		return c
 	}
 
+	if c.hasEnd {
+		c.reportError(errChainEnded)
+		return c
+	}
+
 	if p.err != nil {
 		c.reportError(fmt.Errorf("append parallel invalid, parallel error: %w", p.err))
 		return c
@@ -527,6 +541,11 @@ func (c *Chain[I, O]) addNode(node *graphNode, options *graphAddNodeOpts) {
 
 	if c.gg.compiled {
 		c.reportError(ErrChainCompiled)
+		return
+	}
+
+	if c.hasEnd {
+		c.reportError(errChainEnded)
 		return
 	}
 
